@@ -158,6 +158,14 @@ func (e *Eval) Prepare(flags ...[]byte) error {
 	}
 
 	//
+	// Constructs which have no value may only be used as statements.
+	//
+	err = checkModes(program)
+	if err != nil {
+		return err
+	}
+
+	//
 	// Offsets and indexes are encoded in sixteen bits.
 	//
 	if len(e.instructions) > 65535 || len(e.constants) > 65535 {
